@@ -14,7 +14,7 @@ PROP = {'rule': 'rapid-generated cases. takeCPUs: (topology sockets1-2 x numa1-2
          'read back through GetAllocatedCPUSet / GetAllocatedNUMAResource as preempt.go does, request at/around what the hinted nodes '
          'have free for this pod) with a victim whose NUMA node list is not {0..k}. '
          'concurrentFirstTouch: one generated script set (2-8 goroutines x 1-3 ops of record / record+release / release-unknown / read, '
-         'pairwise disjoint allocations) replayed behind a barrier on 150 (thorough 400) fresh nodes of a fresh resourceManager, oracle at '
+         'pairwise disjoint allocations) replayed behind a barrier on 100 (thorough 300) fresh nodes of a fresh resourceManager, oracle at '
          'quiescence; non-trivial = >=2 goroutines whose first operation records a pod. '
          'distinct = FNV-64 fingerprint of the full case.',
  'assumptions': ['topologies are regular (every core has the same number of threads), as NewTopologyOptions builds them from the NRT '
@@ -38,7 +38,7 @@ PROP = {'rule': 'rapid-generated cases. takeCPUs: (topology sockets1-2 x numa1-2
                       {'run': 'TestVerifC06NUMASplit', 'quick': 20000, 'thorough': 200000},
                       {'run': 'TestVerifC06ManagerHistory', 'quick': 3000, 'thorough': 25000, 'steps': 25},
                       {'run': 'TestVerifC06ManagerHistoryExt', 'quick': 3000, 'thorough': 25000, 'steps': 25},
-                      {'run': 'TestVerifC06ConcurrentFirstTouch', 'quick': 300, 'thorough': 1500},
+                      {'run': 'TestVerifC06ConcurrentFirstTouch', 'quick': 150, 'thorough': 300, 'shards': 2, 'shrinktime': '0s'},
                       {'run': 'FuzzVerifC06NUMASplit', 'fuzz': True, 'rapid': False, 'thorough_only': True, 'fuzztime': '40s'},
                       {'run': 'FuzzVerifC06TakeCPUs', 'fuzz': True, 'rapid': False, 'thorough_only': True, 'fuzztime': '40s'}]}],
  'manifest': {'technique': 'property-based testing (rapid): generated topologies/free sets/hints with validity + completeness oracle, and '
